@@ -11,13 +11,24 @@ import (
 // sign bytes must imply equal fields; a field dropped from the digest is a counterexample: two
 // messages that differ only there share a signature.
 
+// zzText: a protobuf `string` field. proto3 strings must be valid UTF-8 - the real Marshal fails on
+// anything else (found by the translator validation, tools/selftest.py: the boxing model assumes
+// Marshal succeeds) - so string fields are quantified over ASCII text.
+func zzText(name string, n int) string {
+	b := zzBytes(name, n)
+	for _, c := range b {
+		zzAssume(c < 0x80)
+	}
+	return string(b)
+}
+
 func zzTx(name string) *Transaction {
 	return &Transaction{
-		MessageType:   string(zzBytes(name+".type", 2)),
+		MessageType:   zzText(name+".type", 2),
 		Msg:           &anypb.Any{TypeUrl: "t", Value: zzBytes(name+".msg", 3)},
 		Signature:     &Signature{PublicKey: zzBytes(name+".pk", 2), Signature: zzBytes(name+".sig", 2)},
 		CreatedHeight: zzU64(name + ".created"), Time: zzU64(name + ".time"), Fee: zzU64(name + ".fee"),
-		Memo:          string(zzBytes(name+".memo", 2)),
+		Memo:          zzText(name+".memo", 2),
 		NetworkId:     zzU64(name + ".net"), ChainId: zzU64(name + ".chain"), Nonce: zzU64(name + ".nonce"),
 	}
 }
